@@ -202,7 +202,7 @@ type rtAtt struct {
 	g        uint64
 	marked   bool
 	markStep int
-	markEv   int // index in rtOp.evs
+	markEv   int  // index in rtOp.evs
 	withheld bool // its answer was kept back by the race plan at least once
 }
 
